@@ -3,8 +3,8 @@
 first = verdict of the first run of that change with the checks as they were then; after = verdict of the
 latest re-run after the checks were strengthened (empty when the first run already caught it)."""
 import os, sys, re
-logs_first = ['/verif/seeded/runlogs/seeded_round123.tsv', '/verif/seeded/runlogs/run_seeded_r4.log', '/verif/seeded/runlogs/run_seeded_r5.log', '/verif/seeded/runlogs/run_seeded_r6.log', '/verif/seeded/runlogs/run_seeded_r7.log', '/verif/seeded/runlogs/run_seeded_r8.log', '/verif/seeded/runlogs/run_seeded_r8d.log']
-logs_after = ['/verif/seeded/runlogs/seeded_after.tsv', '/verif/seeded/runlogs/seeded_r5_after.tsv', '/verif/seeded/runlogs/run_seeded_r7.log', '/verif/seeded/runlogs/reverts.tsv', '/verif/seeded/runlogs/seeded_final_after.tsv', '/verif/seeded/runlogs/run_seeded_r8b.log', '/verif/seeded/runlogs/run_seeded_r8c.log', '/verif/seeded/runlogs/run_seeded_r8e.log']
+logs_first = ['/verif/seeded/runlogs/seeded_round123.tsv', '/verif/seeded/runlogs/run_seeded_r4.log', '/verif/seeded/runlogs/run_seeded_r5.log', '/verif/seeded/runlogs/run_seeded_r6.log', '/verif/seeded/runlogs/run_seeded_r7.log', '/verif/seeded/runlogs/run_seeded_r8.log', '/verif/seeded/runlogs/run_seeded_r8d.log', '/verif/seeded/runlogs/run_seeded_r9.log']
+logs_after = ['/verif/seeded/runlogs/seeded_after.tsv', '/verif/seeded/runlogs/seeded_r5_after.tsv', '/verif/seeded/runlogs/run_seeded_r7.log', '/verif/seeded/runlogs/reverts.tsv', '/verif/seeded/runlogs/seeded_final_after.tsv', '/verif/seeded/runlogs/run_seeded_r8b.log', '/verif/seeded/runlogs/run_seeded_r8c.log', '/verif/seeded/runlogs/run_seeded_r8e.log', '/verif/seeded/runlogs/run_seeded_r9b.log']
 def rd(f):
     out = []
     if not os.path.exists(f): return out
